@@ -223,7 +223,13 @@ impl<'tcx> Cx<'tcx> {
                 o.put("body", self.expr(b.value));
                 o
             }
-            K::Block(b, _) => self.block(b),
+            K::Block(b, _) => {
+                let mut o = self.block(b);
+                if let Some(t) = self.tr.expr_ty_opt(e) {
+                    o.put("ty", J::s(t.to_string()));
+                }
+                o
+            }
             K::Assign(a, b, _) => self
                 .base("assign", e)
                 .with("lhs", self.expr(a))
